@@ -167,6 +167,7 @@ func init() {
 		t.class = classOf(t.name)
 		targetByName[t.name] = t
 	}
+	initElemCtxs()
 }
 
 var slugRe = regexp.MustCompile(`[^a-z0-9]+`)
@@ -191,7 +192,7 @@ func errSlug(err error) string {
 // ------------------------------------------------------------------ helpers
 
 type kase struct {
-	Part  string `json:"part"` // decode | bytes | alloc | value | limit
+	Part  string `json:"part"` // decode | bytes | alloc | value | limit | stream-elem | stream-uint-list
 	Type  string `json:"type,omitempty"`
 	In    string `json:"in,omitempty"` // packed bytes (hex with xx*N runs)
 	Deep  bool   `json:"deep,omitempty"`
@@ -817,6 +818,10 @@ func execCase(k kase) []finding {
 		return checkAlloc(targetByName[k.Type], unpackBytes(k.In))
 	case "limit":
 		return checkLimit(k.Seq, k.Limit, k.Mode)
+	case "stream-elem":
+		return checkStreamElem(targetByName[k.Type], unpackBytes(k.In))
+	case "stream-uint-list":
+		return checkStreamUintList(unpackBytes(k.In))
 	case "value":
 		for _, g := range valueGroups(k.Tho) {
 			if g.name == k.Group {
@@ -1004,6 +1009,37 @@ func run(c *fw.Ctx) {
 	c.Sample(kase{Part: "limit", Seq: []int{6, 2}, Limit: 4, Mode: 0})
 	phase("limit")
 
+	// (ii-d) long-string elements against integer-like element types in list contexts
+	ni := int64(0)
+	forEachIntElem(func(ec elemCtx, t *target, in []byte, bare bool) bool {
+		if !r.mine() {
+			return true
+		}
+		ni++
+		r.input(in, []*target{t}, len(in) < 400, false)
+		if bare {
+			r.evals++
+			if fs := checkStreamElem(t, in); len(fs) > 0 {
+				in := append([]byte{}, in...)
+				r.report(kase{Part: "stream-elem", Type: t.name, In: packBytes(in)}, fs, func() []finding { return checkStreamElem(t, in) })
+			}
+		} else if t == ec.slice && ec.e.name == "uint64" {
+			r.evals++
+			if fs := checkStreamUintList(in); len(fs) > 0 {
+				in := append([]byte{}, in...)
+				r.report(kase{Part: "stream-uint-list", In: packBytes(in)}, fs, func() []finding { return checkStreamUintList(in) })
+			}
+		}
+		return !r.expired()
+	})
+	if r.capped {
+		c.Cap("time budget during the integer-element family")
+		return
+	}
+	c.Count("int_element_inputs", ni)
+	c.Sample(map[string]string{"part": "decode", "type": "[]<uint64>", "in": "f90104 b90101 ff 01*256"})
+	phase("intelem")
+
 	// (iii) value round trips
 	nvals := int64(0)
 	for _, g := range valueGroups(c.Thorough()) {
@@ -1137,7 +1173,8 @@ func main() {
 			"(kind x every header form x 14 declared sizes up to 2^64-1 x payload lengths {n,n-1,n+1,0,1,2} x fillers x 8 nesting wrappers) and all single and double " +
 			"field substitutions (45 canonical/non-canonical field encodings) in the struct encodings of account.Account, eth_tx.Transaction and the tagged test structs, " +
 			"each against the target types, plus limited multi-value Streams (every sequence of 2..3 values from a 9-value alphabet x every input-limit position x 4 read modes " +
-			"over a reader holding more than the limit) and encode->decode round trips over per-type value alphabets. " +
+			"over a reader holding more than the limit), long-string elements (b8/b9/ba headers, lengths w+1, 255, 256, 256+n, 512+n, 65536+n for n<=w+1, full payload, 5 fillers) " +
+			"against 10 integer-like element types bare / in []T / struct{A,B T} / struct{A T; Tail []T}, and encode->decode round trips over per-type value alphabets. " +
 			"Non-trivial = the input is well-formed canonical RLP (so the outcome depends on the target type) or the decoder accepted it, or a value round trip.",
 		Assumptions: []string{
 			"verif/h/refrlp (strict reference decoder/encoder written from the property statement) is correct",
